@@ -90,13 +90,49 @@ func (e *Emulator) instruction(ip model.Addr) (deps.Instruction, error) {
 	return ins, nil
 }
 
+// unsupportedAccessError describes a memory access reaching (or wrapping
+// around) the end of the address space, which the memory is not able to
+// represent.
+type unsupportedAccessError struct {
+	addr model.Addr
+	w    expr.Width
+}
+
+func (e unsupportedAccessError) Error() string {
+	return fmt.Sprintf(
+		"access of %d bytes at address 0x%x reaches the end of the address "+
+			"space, which is not supported", e.w, e.addr)
+}
+
+// assertAccessSupported panics with unsupportedAccessError if memory range
+// [addr, addr+w) cannot be represented by the memory.
+func assertAccessSupported(addr model.Addr, w expr.Width) {
+	if end := addr + model.Addr(w); w > 0 && end <= addr {
+		panic(unsupportedAccessError{addr: addr, w: w})
+	}
+}
+
 // Step performs a single instruction step of an emulation.
-func (e *Emulator) Step() (*Step, error) {
+func (e *Emulator) Step() (step *Step, err error) {
 	ip := e.MustIP()
 	ins, err := e.instruction(ip)
 	if err != nil {
 		return nil, err
 	}
+
+	// Memory doesn't support accesses reaching the end of the address
+	// space. Such an access is found deep in the expression evaluation, so
+	// it's reported by panic. No effect is applied in such a case.
+	defer func() {
+		if r := recover(); r != nil {
+			accessErr, ok := r.(unsupportedAccessError)
+			if !ok {
+				panic(r)
+			}
+
+			step, err = nil, accessErr
+		}
+	}()
 
 	efs := ins.Effects()
 	s := newStep(len(efs))
@@ -104,6 +140,13 @@ func (e *Emulator) Step() (*Step, error) {
 	efs = exprtransform.EffectsApply(efs, func(ex expr.Expr) expr.Expr {
 		return e.eval(ex, s)
 	})
+
+	for _, ef := range efs {
+		if mStore, ok := ef.(expr.MemStore); ok {
+			addr, _ := expr.ConstUint[model.Addr](mStore.Addr().(expr.Const))
+			assertAccessSupported(addr, mStore.Width())
+		}
+	}
 
 	var jumped bool
 	for _, ef := range efs {
@@ -231,6 +274,7 @@ func (e *Emulator) evalMemoryFully(ex expr.Expr, s *Step) expr.Expr {
 		// all registers are already evaluated -> this MUST be constant.
 		addrConst := exprtransform.ConstFold(curr.Addr()).(expr.Const)
 		addr, _ := expr.ConstUint[model.Addr](addrConst)
+		assertAccessSupported(addr, w)
 
 		val := e.memValue(key, addr, w)
 		s.memRead(key, addr, val)
